@@ -427,6 +427,60 @@ pub struct AbstractStreamManager<S> {
 #[allow(unknown_lints, clippy::non_send_fields_in_send_ty)]
 unsafe impl<S> Send for AbstractStreamManager<S> {}
 
+/// The part of a stream a received frame refers to
+#[derive(Clone, Copy, Debug)]
+enum FramePart {
+    /// STREAM, RESET_STREAM and STREAM_DATA_BLOCKED are sent by the sending part of the peer's stream
+    Receiving,
+    /// MAX_STREAM_DATA and STOP_SENDING are sent by the receiving part of the peer's stream
+    Sending,
+}
+
+impl FramePart {
+    fn validate(
+        self,
+        stream_id: StreamId,
+        local_endpoint_type: endpoint::Type,
+    ) -> Result<(), transport::Error> {
+        if !stream_id.stream_type().is_unidirectional() {
+            return Ok(());
+        }
+
+        let is_local = stream_id.initiator() == local_endpoint_type;
+
+        match self {
+            //= https://www.rfc-editor.org/rfc/rfc9000#section-19.8
+            //# An endpoint MUST terminate the connection with error
+            //# STREAM_STATE_ERROR if it receives a STREAM frame for a locally
+            //# initiated stream that has not yet been created, or for a send-only
+            //# stream.
+
+            //= https://www.rfc-editor.org/rfc/rfc9000#section-19.4
+            //# An endpoint that receives a RESET_STREAM frame for a send-only stream
+            //# MUST terminate the connection with error STREAM_STATE_ERROR.
+
+            //= https://www.rfc-editor.org/rfc/rfc9000#section-19.13
+            //# An endpoint that receives a STREAM_DATA_BLOCKED frame for a send-only
+            //# stream MUST terminate the connection with error STREAM_STATE_ERROR.
+            Self::Receiving if is_local => Err(transport::Error::STREAM_STATE_ERROR
+                .with_reason("frame is not allowed on a send-only stream")),
+
+            //= https://www.rfc-editor.org/rfc/rfc9000#section-19.5
+            //# An endpoint that receives a STOP_SENDING frame for a
+            //# receive-only stream MUST terminate the connection with error
+            //# STREAM_STATE_ERROR.
+
+            //= https://www.rfc-editor.org/rfc/rfc9000#section-19.10
+            //# An endpoint that
+            //# receives a MAX_STREAM_DATA frame for a receive-only stream MUST
+            //# terminate the connection with error STREAM_STATE_ERROR.
+            Self::Sending if !is_local => Err(transport::Error::STREAM_STATE_ERROR
+                .with_reason("frame is not allowed on a receive-only stream")),
+            _ => Ok(()),
+        }
+    }
+}
+
 impl<S: 'static + StreamTrait> AbstractStreamManager<S> {
     fn accept_stream_with_type(
         &mut self,
@@ -479,6 +533,7 @@ impl<S: 'static + StreamTrait> AbstractStreamManager<S> {
     fn handle_stream_frame<F>(
         &mut self,
         stream_id: StreamId,
+        frame_part: FramePart,
         mut func: F,
     ) -> Result<(), transport::Error>
     where
@@ -491,6 +546,9 @@ impl<S: 'static + StreamTrait> AbstractStreamManager<S> {
             self.inner.reset_streams_on_error(|state| {
                 // Open streams if necessary
                 state.open_stream_if_necessary(stream_id)?;
+                // The direction of a unidirectional stream follows from its ID, so the frame can be
+                // validated even if the stream was already closed and removed
+                frame_part.validate(stream_id, state.local_endpoint_type)?;
                 // Apply the provided function on the Stream.
                 // If the Stream does not exist it is no error.
                 state
@@ -890,7 +948,9 @@ impl<S: 'static + StreamTrait> stream::Manager for AbstractStreamManager<S> {
 
     fn on_data(&mut self, frame: &StreamRef) -> Result<(), transport::Error> {
         let stream_id = StreamId::from_varint(frame.stream_id);
-        self.handle_stream_frame(stream_id, |stream, events| stream.on_data(frame, events))
+        self.handle_stream_frame(stream_id, FramePart::Receiving, |stream, events| {
+            stream.on_data(frame, events)
+        })
     }
 
     fn on_data_blocked(&mut self, _frame: DataBlocked) -> Result<(), transport::Error> {
@@ -902,26 +962,28 @@ impl<S: 'static + StreamTrait> stream::Manager for AbstractStreamManager<S> {
         frame: &StreamDataBlocked,
     ) -> Result<(), transport::Error> {
         let stream_id = StreamId::from_varint(frame.stream_id);
-        self.handle_stream_frame(stream_id, |stream, events| {
+        self.handle_stream_frame(stream_id, FramePart::Receiving, |stream, events| {
             stream.on_stream_data_blocked(frame, events)
         })
     }
 
     fn on_reset_stream(&mut self, frame: &ResetStream) -> Result<(), transport::Error> {
         let stream_id = StreamId::from_varint(frame.stream_id);
-        self.handle_stream_frame(stream_id, |stream, events| stream.on_reset(frame, events))
+        self.handle_stream_frame(stream_id, FramePart::Receiving, |stream, events| {
+            stream.on_reset(frame, events)
+        })
     }
 
     fn on_max_stream_data(&mut self, frame: &MaxStreamData) -> Result<(), transport::Error> {
         let stream_id = StreamId::from_varint(frame.stream_id);
-        self.handle_stream_frame(stream_id, |stream, events| {
+        self.handle_stream_frame(stream_id, FramePart::Sending, |stream, events| {
             stream.on_max_stream_data(frame, events)
         })
     }
 
     fn on_stop_sending(&mut self, frame: &StopSending) -> Result<(), transport::Error> {
         let stream_id = StreamId::from_varint(frame.stream_id);
-        self.handle_stream_frame(stream_id, |stream, events| {
+        self.handle_stream_frame(stream_id, FramePart::Sending, |stream, events| {
             stream.on_stop_sending(frame, events)
         })
     }
